@@ -34,10 +34,10 @@ RdMatch(r, x) ==
 
 TCall(e) ==
   CASE e.a.op = "w" ->
-         Step(e.a) /\ WMatch(e.r, ReplyW(e.a))
+         Step(e.a) /\ WMatch(e.r, ReplyW(e.a)) /\ ~e.r.inmut      \* the input is the caller's
     [] e.a.op = "rw" ->
          /\ Step(e.a)
-         /\ e.r.pan = 0
+         /\ e.r.pan = 0 /\ ~e.r.inmut
          /\ e.a.plen = Len(e.a.p) /\ (e.a.kind = "p" => e.a.tok = e.a.p)
          /\ Len(e.r.before) = ULen
          /\ FrameOK(e.r.before, e.r.after, e.a.pos, e.a.p)
